@@ -282,6 +282,8 @@ var registry = []propertySpec{
 				Bounds: "one parent and the child with exact-day births: day 1..28 symbolic, month one of Jan/Jun/Dec and year (parent 1800/1801, child 1800/1801/1830) by choice; the other parent born 1650 / 1995 / without a date; either parent symbolic; 3 record orders"},
 			{Name: "VerifC20_Siblings", Quick: tierSpec{Cases: 2}, Thorough: tierSpec{Cases: 2}, Sched: -1,
 				Bounds: "two siblings with exact-day births: day 1..28 symbolic, month Jan/Jun/Dec and year 1803..1805 by choice; distance 0, 5..268 or >= 280 days; both orders of the CHIL lines"},
+			{Name: "VerifC20_ThreeSiblings", Quick: tierSpec{Cases: 6}, Thorough: tierSpec{Cases: 6}, Sched: -1, Solver: "cvc5",
+				Bounds: "three children (days symbolic: January 1900, June 1900, June 1905) with the CHIL lines in all six orders"},
 			{Name: "VerifC20_Marriage", Quick: tierSpec{Cases: 1}, Thorough: tierSpec{Cases: 1}, Sched: -1, Solver: "cvc5",
 				Bounds: "husband born in 1800 and married in 1810/1816/1850/1900/1903 (by choice), days 1..28 symbolic, months Jan/Jun/Dec by choice; age at marriage at least 10 days away from 16 and 100 years"},
 			{Name: "VerifC20_Individual", Quick: tierSpec{Cases: 4}, Thorough: tierSpec{Cases: 4}, Sched: -1, Solver: "cvc5",
